@@ -11,20 +11,25 @@ typedef struct Ctx Ctx; typedef struct Self Self; typedef struct XalanDOMString 
 enum { XalanUnicode_charDigit_1 = 0x31, XalanUnicode_charFullStop = 0x2E };
 typedef size_t StringVectorTypeIterator; typedef size_t StringVectorType_size_type;       /* an iterator into tokenVector is an index; end() is the token count */
 /* ghost: the token vector: g_n tokens, alternating; whether token 0 is alphanumeric */
-size_t g_n; bool g_first_alnum; size_t g_listlen; size_t g_numbers_out, g_seps_out; bool g_leader_out, g_trailer_out;
+size_t g_n; bool g_first_alnum; size_t g_listlen; bool g_tok_consumed; XalanDOMChar g_last_type; size_t g_last_width; size_t g_numbers_out, g_seps_out; bool g_leader_out, g_trailer_out;
 void xv_tokenize(const Self* s, Ctx* c) __CPROVER_requires(1) __CPROVER_assigns() __CPROVER_ensures(1) ;     /* evaluates the format AVT ("1" when empty) and tokenizes it: at least one token */
 bool xv_tok_is_alnum(size_t k) __CPROVER_requires(/* a token of the vector */ k < g_n) __CPROVER_assigns() __CPROVER_ensures(__CPROVER_return_value == ((k % 2 == 0) == g_first_alnum)) ;
 size_t xv_tok_length(size_t k) __CPROVER_requires(k < g_n) __CPROVER_assigns() __CPROVER_ensures(__CPROVER_return_value >= 1 && __CPROVER_return_value < ((size_t)1 << 40)) ;
-XalanDOMChar xv_tok_char(size_t k, size_t pos) __CPROVER_requires(k < g_n && pos < ((size_t)1 << 40)) __CPROVER_assigns() __CPROVER_ensures(1) ;
+/* (*it)[numberWidth - 1]: the last unit of a number token decides the numbering type; remembered as the most recent format token */
+XalanDOMChar xv_tok_char(size_t k, size_t pos) __CPROVER_requires(k < g_n && pos < ((size_t)1 << 40)) __CPROVER_assigns(g_tok_consumed, g_last_type, g_last_width)
+__CPROVER_ensures(g_tok_consumed == true && g_last_type == __CPROVER_return_value && g_last_width == pos + 1) ;
 void xv_append_token(XalanDOMString* r, size_t k, int which)
 __CPROVER_requires(/* leader / separator / trailer: a punctuation token of the vector */ k < g_n && ((k % 2 == 0) != g_first_alnum)) __CPROVER_assigns(g_leader_out, g_trailer_out, g_seps_out)
 __CPROVER_ensures(g_leader_out == (which == 0 ? true : __CPROVER_old(g_leader_out)) && g_trailer_out == (which == 2 ? true : __CPROVER_old(g_trailer_out)) && g_seps_out == __CPROVER_old(g_seps_out) + (which == 1 ? 1 : 0)) ;
 void xv_append_dot(XalanDOMString* r) __CPROVER_requires(1) __CPROVER_assigns(g_seps_out) __CPROVER_ensures(g_seps_out == __CPROVER_old(g_seps_out) + 1) ;
 CountType xv_list_at(const CountType* l, size_t i) __CPROVER_requires(/* theList[i] inside the list */ i < g_listlen) __CPROVER_assigns() __CPROVER_ensures(1) ;
-void xv_format_number(const Self* s, Ctx* c, XalanDOMChar type, size_t width, CountType v) __CPROVER_requires(width >= 1) __CPROVER_assigns() __CPROVER_ensures(1) ;
+void xv_format_number(const Self* s, Ctx* c, XalanDOMChar type, size_t width, CountType v) __CPROVER_requires(width >= 1)
+__CPROVER_requires(/* XSLT 7.7.1: a number is formatted with its own format token, and when the tokens run out with the LAST one (the default token "1" only if the format has none) */
+    g_tok_consumed ? (type == g_last_type && width == g_last_width) : (type == XalanUnicode_charDigit_1 && width == 1))
+__CPROVER_assigns() __CPROVER_ensures(1) ;
 void xv_append_number(XalanDOMString* r) __CPROVER_requires(g_numbers_out < ((size_t)1 << 40)) __CPROVER_assigns(g_numbers_out) __CPROVER_ensures(g_numbers_out == __CPROVER_old(g_numbers_out) + 1) ;
 @@FN formatNumberList@@
-void h_formatNumberList(void) { size_t n, l; bool a; __CPROVER_assume(n >= 1 && n < ((size_t)1 << 40) && l < ((size_t)1 << 40)); g_n = n; g_first_alnum = XV_BOOL(a); g_listlen = l; g_numbers_out = 0; g_seps_out = 0; g_leader_out = false; g_trailer_out = false; formatNumberList(0, 0, 0, l, 0); }
+void h_formatNumberList(void) { size_t n, l; bool a; __CPROVER_assume(n >= 1 && n < ((size_t)1 << 40) && l < ((size_t)1 << 40)); g_n = n; g_first_alnum = XV_BOOL(a); g_listlen = l; g_numbers_out = 0; g_seps_out = 0; g_leader_out = false; g_trailer_out = false; g_tok_consumed = false; formatNumberList(0, 0, 0, l, 0); }
 '''
 R = ['SCOPE',
      (r'typedef XalanVector<XalanDOMString>\s+StringVectorType;\s*typedef StringVectorType_iterator\s+StringVectorTypeIterator;', '', 1),
@@ -46,21 +51,37 @@ R = ['SCOPE',
      (r'theResult \+= XalanUnicode_charFullStop;', 'xv_append_dot(theResult);', 1),
      (r'theIntermediateResult\.clear\(\);', '', 1),
      (r'const StringVectorTypeIterator', 'const size_t', (0, 2))]
+def gen(fn_texts, blk_texts=None):
+    # the loop contract names two locals of the function; when the current source declares them INSIDE the loop they are not in scope at the
+    # loop head: drop them from the loop frame and drop the invariant about them (the stub precondition of xv_format_number still applies)
+    import re as _re
+    body = fn_texts['formatNumberList']
+    loop = body.index('__CPROVER_assigns(i, it,')
+    if not _re.search(r'XalanDOMChar\s+numberType\b', body[:loop]):
+        body = _re.sub(r'/\*NT\*/.*?/\*TN\*/', '', body)
+        body = '\n'.join(l for l in body.split('\n') if '/*NT*/' not in l)
+        fn_texts['formatNumberList'] = body
+    return {}
+
+
 UNIT = Unit(
     name='c03_formatlist',
+    gen=gen,
     props=['C03', 'C17'],
     functions=[
         Fn(EN, r'^ElemNumber::formatNumberList\(', 'formatNumberList',
            'void formatNumberList(const Self* self, Ctx* executionContext, const CountType* theList, NodeRefListBase_size_type theListLength, XalanDOMString* theResult)', rules=R, nloops=1,
-           loops={0: '''__CPROVER_assigns(i, it, sepStringIt, numberWidth, numberType, g_numbers_out, g_seps_out, g_leader_out, g_trailer_out)
-__CPROVER_loop_invariant(i <= theListLength && /* the current iterator never passes the trailer */ it <= trailerStrIt && trailerStrIt <= g_n && numberWidth >= 1)
+           loops={0: '''__CPROVER_assigns(i, it, sepStringIt, /*NT*/ numberWidth, numberType, /*TN*/ g_numbers_out, g_seps_out, g_leader_out, g_trailer_out, g_tok_consumed, g_last_type, g_last_width)
+__CPROVER_loop_invariant(i <= theListLength && /* the current iterator never passes the trailer */ it <= trailerStrIt && trailerStrIt <= g_n)
+__CPROVER_loop_invariant(/*NT*/ numberWidth >= 1 && (g_tok_consumed ? (numberType == g_last_type && numberWidth == g_last_width) : (numberType == XalanUnicode_charDigit_1 && numberWidth == 1)))
+__CPROVER_loop_invariant(g_tok_consumed == true || g_tok_consumed == false)
 __CPROVER_loop_invariant(/* the separator iterator is end() or a punctuation token */ sepStringIt == g_n || (sepStringIt < g_n && ((sepStringIt % 2 == 0) != g_first_alnum)))
 __CPROVER_loop_invariant(/* what is left between current and trailer starts with a number token */ it < trailerStrIt ==> ((it % 2 == 0) == g_first_alnum))
 __CPROVER_loop_invariant(g_leader_out == __CPROVER_loop_entry(g_leader_out) && g_trailer_out == false)
 __CPROVER_loop_invariant(g_numbers_out == i && g_seps_out == (i == 0 ? 0 : i - 1 + (i == theListLength ? 0 : 1)) )
 __CPROVER_decreases(theListLength - i)'''},
-           contract='''__CPROVER_requires(g_n >= 1 && g_n < ((size_t)1 << 40) && theListLength == g_listlen && g_listlen < ((size_t)1 << 40) && g_numbers_out == 0 && g_seps_out == 0 && g_leader_out == false && g_trailer_out == false)
-__CPROVER_assigns(g_numbers_out, g_seps_out, g_leader_out, g_trailer_out)
+           contract='''__CPROVER_requires(g_n >= 1 && g_n < ((size_t)1 << 40) && theListLength == g_listlen && g_listlen < ((size_t)1 << 40) && g_numbers_out == 0 && g_seps_out == 0 && g_leader_out == false && g_trailer_out == false && g_tok_consumed == false)
+__CPROVER_assigns(g_numbers_out, g_seps_out, g_leader_out, g_trailer_out, g_tok_consumed, g_last_type, g_last_width)
 __CPROVER_ensures(/* one formatted number per count, a separator between consecutive numbers */ g_numbers_out == g_listlen && g_seps_out == (g_listlen == 0 ? 0 : g_listlen - 1))
 __CPROVER_ensures(/* leading punctuation is the leader; trailing punctuation is the trailer, unless the single punctuation token already is the leader */
     g_leader_out == (g_first_alnum == false) && g_trailer_out == (g_n > 1 && (((g_n - 1) % 2 == 0) != g_first_alnum)))'''),
@@ -69,6 +90,7 @@ __CPROVER_ensures(/* leading punctuation is the leader; trailing punctuation is 
     jobs=[Job('formatNumberList', 'h_formatNumberList', enforce=['formatNumberList'], replace=['xv_tokenize', 'xv_tok_is_alnum', 'xv_tok_length', 'xv_tok_char', 'xv_append_token', 'xv_append_dot', 'xv_list_at', 'xv_format_number', 'xv_append_number'],
               loop_contracts=True, reach='all', timeout=600, min_obligations=8)],
     mutants=[
+        Mutant('format_token_forgotten_between_numbers', EN, r'    XalanDOMChar    numberType = XalanUnicode::charDigit_1;\n\n    XalanDOMString::size_type   numberWidth = 1;\n(.*?)(    for \(NodeRefListBase::size_type i = 0; i < theListLength; i\+\+\)\n    \{\n)', r'\1\2        XalanDOMChar                numberType = XalanUnicode::charDigit_1;\n        XalanDOMString::size_type   numberWidth = 1;\n', expect='LAST one'),
         Mutant('single_punctuation_token_is_trailer_too', EN, r'if \(theVectorSize > 1\)\s*\{\s*(if \(!isXMLLetterOrDigit\(tokenVector\.back\(\)\[0\]\)\)\s*\{[^}]*\})\s*\}', r'\1', expect=None),
         Mutant('separator_taken_without_check', EN, r'        if \(it != trailerStrIt\)\s*\{\s*assert\(!isXMLLetterOrDigit\(\(\*it\)\[0\]\)\);\s*sepStringIt = it;\s*\+\+it;\s*\}', '        {\n            sepStringIt = it;\n\n            ++it;\n        }', expect=None),
         Mutant('one_separator_too_many', EN, r'if \(i < theListLength - 1\)', 'if (i < theListLength)', expect=None),
